@@ -529,6 +529,9 @@ func TestVerifC04Admin(t *testing.T) {
 		for _, r := range reqs {
 			if r.mutating && r.want == "not401" {
 				check(r, w.do(r))
+				// an accepted edit is answered before it is applied, and applying it may restart the API listener:
+				// let the Core finish before the next call (a request caught by that restart is not this property's business)
+				core.Barrier()
 			}
 		}
 
